@@ -131,7 +131,12 @@ def run_real(ctx, data: bytes):
     except Exception as e:
         obs["topB"] = ("err", errname(e))
     h = _path(ctx, "h")
-    B.write(h)
+    try:
+        B.write(h)
+    except Exception as e:   # noqa: BLE001  (the second write of a file the library itself wrote and re-read)
+        obs["h"] = b""
+        obs["reread2_err"] = "second-write-raises-" + errname(e)
+        return obs
     del B
     obs["h"] = open(h, "rb").read()
     try:
